@@ -305,3 +305,15 @@ def mon_c14(case, ots):
             if not any(e.startswith('W:') for e in ot.events):
                 return 'not-eager: write op %d accepted with write_buffer_size 0 but no transport write happened' % i
     return None
+
+def mon_c14_bound(case, ots):
+    """every transport write offers the whole out_buffer: its length must never exceed max_write_buffer_size"""
+    if case.max is None or any(o.startswith('sb:') for o in case.ops):
+        return None
+    for i, ot in enumerate(ots):
+        for e in ot.events:
+            if e.startswith('W:'):
+                off = int(e.split(':')[1])
+                if off > case.max:
+                    return 'buffer-over-max: op %d offered %d unsent bytes to the transport with max_write_buffer_size %d' % (i, off, case.max)
+    return None
